@@ -566,6 +566,10 @@ func (fr *Frame) tr(e ast.Expr, env *Env) Val {
 			if c.sortOf(v.Typ) == "Slice" {
 				return Val{fmt.Sprintf("(sl.len %s)", v.T), types.Typ[types.Int]}
 			}
+			if mt, ok := v.Typ.Underlying().(*types.Map); ok {
+				_, _, dom, _ := c.mapHeaps(env.st, mt)
+				return Val{fmt.Sprintf("(%s (select %s %s))", c.mcardFn(mt), dom, v.T), types.Typ[types.Int]}
+			}
 			return Val{fmt.Sprintf("(slen %s)", v.T), types.Typ[types.Int]}
 		case "has":
 			m, k := fr.tr(x.Args[0], env), fr.tr(x.Args[1], env)
